@@ -49,13 +49,14 @@ type c19Case struct {
 }
 
 type c19H struct {
-	cfg    c19Cfg
-	t      int
-	parent dyn.Buf
-	roEnd  int // read-only region is frames [0, roEnd)
-	obs    [schedx.MaxThreads]uint64
-	step   [schedx.MaxThreads]int
-	fails  [schedx.MaxThreads][]string
+	cfg     c19Cfg
+	t       int
+	stripes []dyn.Sl // shared input of the striped writers
+	parent  dyn.Buf
+	roEnd   int // read-only region is frames [0, roEnd)
+	obs     [schedx.MaxThreads]uint64
+	step    [schedx.MaxThreads]int
+	fails   [schedx.MaxThreads][]string
 	// reference (sequential) results
 	haveRef  bool
 	refObs   [schedx.MaxThreads]uint64
@@ -79,6 +80,17 @@ func (h *c19H) Init() {
 	C := h.cfg.C
 	c19Frames := h.frames()
 	poolctl.ResetSched()
+	h.stripes = make([]dyn.Sl, C)
+	for c := range h.stripes {
+		n := 3 // one frame more than a writer's window holds
+		if c == C-1 {
+			n = 1 // short
+		}
+		h.stripes[c] = dyn.NewSl(h.t, n)
+		for k := 0; k < n; k++ {
+			h.stripes[c].Set(k, dyn.Tok(h.t, int64(50+2*k+c)))
+		}
+	}
 	if h.cfg.Pooled {
 		// a recycled pooled buffer: nothing but Get, AppendSample, Put, Get, SetSample touches it before the threads start
 		p := dyn.NewPool(h.t, al(C, 3, c19Frames))
@@ -239,14 +251,9 @@ func (h *c19H) writer(id, wi int) {
 			}
 			h.mix(id, uint64(dyn.Write(src, w)))
 		case "wstriped":
-			srcs := make([]dyn.Sl, C)
-			for c := range srcs {
-				srcs[c] = dyn.NewSl(h.t, 3) // one frame more than the window holds
-				srcs[c].Set(0, dyn.Tok(h.t, base+10+int64(c)))
-				srcs[c].Set(1, dyn.Tok(h.t, base+12+int64(c)))
-				srcs[c].Set(2, dyn.Tok(h.t, base+14+int64(c)))
-			}
-			h.mix(id, uint64(dyn.WriteStriped(h.t, srcs, false, w)))
+			// one table of per-channel slices shared by all writers (read-only input; its last channel is
+			// short, so that the writer has to zero-fill)
+			h.mix(id, uint64(dyn.WriteStriped(h.t, h.stripes, false, w)))
 		case "chanset":
 			for c := 0; c < C; c++ {
 				ch := w.Channel(c)
@@ -261,6 +268,9 @@ func (h *c19H) writer(id, wi int) {
 			h.mix(id, uint64(dyn.Conv(src, w)))
 		}
 		h.step[id] = k + 1
+	}
+	if d := dyn.TakeCallerDamage(); d != "" {
+		h.fails[id] = append(h.fails[id], "writer: "+d)
 	}
 	// the writer's own view of its range
 	for i := 0; i < w.Len(); i++ {
@@ -462,7 +472,13 @@ func (h *c19InstH) Init() {
 	}
 	h.shared = dyn.Alloc(t, al(h.cfg.C, fr, fr))
 	for i := 0; i < h.shared.Len(); i++ {
-		h.shared.SetSample(i, dyn.Tok(t, tk(int64(1+i))))
+		// (every third value negative where the type has negative values: floats at or below -1 are clipped,
+		// and a conversion has no business writing to its source whatever the value)
+		x := tk(int64(1 + i))
+		if i%3 == 2 && dyn.Types[t].Kind != dyn.Unsigned {
+			x = -x
+		}
+		h.shared.SetSample(i, dyn.Tok(t, x))
 	}
 	h.obs = [2]uint64{14695981039346656037, 14695981039346656037}
 }
